@@ -405,6 +405,15 @@ class C07Models:
             return _new(ex, False, A.shape, A.elems)
         raise Unsupported(f"matrix method {name}")
 
+    def havoc_obj(self, ex, ref, o, hint):
+        if not isinstance(o, MatObj):
+            return NotImplemented
+        t = ex.st.fresh_const(hint, TMat.sort())
+        o.sparse, o.shape, o.elems, o.src = TMat.sparse(t), (TMat.dim(t, 0), TMat.dim(t, 1)), TMat.els(t), None
+        ex.st.assume(z3.And(o.shape[0] >= 0, o.shape[1] >= 0))
+        ex.writeback(o)
+        return True
+
     def unary(self, ex, op, v, lineno):
         A = _mat(ex, v)
         if A is None:
@@ -433,3 +442,273 @@ class C07Models:
         if name == "DerivationMode" and ci.qualname.endswith(("JacobianAssembly", "CoupledSystem")):
             return ClassV("gemseo.core.derivatives.derivation_modes.DerivationMode")
         return NotImplemented
+
+
+# =========================================================================== Part 2: abstract matrix ring
+MatrixS = z3.DeclareSort("Matrix")
+_MM = (MatrixS, MatrixS)
+madd = z3.Function("m_add", *_MM, MatrixS)
+mmul = z3.Function("m_mul", *_MM, MatrixS)
+mneg = z3.Function("m_neg", MatrixS, MatrixS)
+mtr = z3.Function("m_transpose", MatrixS, MatrixS)
+minv = z3.Function("m_inverse", MatrixS, MatrixS)
+mcol = z3.Function("m_col", MatrixS, z3.IntSort(), MatrixS)  # column j as an n x 1 matrix
+mrow = z3.Function("m_row", MatrixS, z3.IntSort(), MatrixS)  # row i as a 1 x n matrix
+nrows = z3.Function("m_nrows", MatrixS, z3.IntSort())
+ncols = z3.Function("m_ncols", MatrixS, z3.IntSort())
+set_col = z3.Function("m_set_col", MatrixS, z3.IntSort(), MatrixS, MatrixS)
+set_row = z3.Function("m_set_row", MatrixS, z3.IntSort(), MatrixS, MatrixS)
+ext_q = z3.Function("trg_matrix_equality", *_MM, z3.BoolSort())  # always-true trigger function: names a pair of matrices to compare
+diff_col = z3.Function("m_differing_col", *_MM, z3.IntSort())
+diff_row = z3.Function("m_differing_row", *_MM, z3.IntSort())
+
+
+def msolve(a, b):
+    """The exact solution of a x = b for an invertible a."""
+    return mmul(minv(a), b)
+
+
+def ring_axioms():
+    """Textbook identities of the matrix ring used by the proofs (ASSUMED; every one is listed in the evidence)."""
+    X, Y, Z, v = (z3.Const(n, MatrixS) for n in ("X!ra", "Y!ra", "Z!ra", "v!ra"))
+    i, j = z3.Int("i!ra"), z3.Int("j!ra")
+    FA = z3.ForAll
+    return [
+        ("column-of-product: col(XY, j) = X col(Y, j)", FA([X, Y, j], mcol(mmul(X, Y), j) == mmul(X, mcol(Y, j)), patterns=[mcol(mmul(X, Y), j)])),
+        ("column-of-opposite: col(-X, j) = -col(X, j)", FA([X, j], mcol(mneg(X), j) == mneg(mcol(X, j)), patterns=[mcol(mneg(X), j)])),
+        ("row-of-product: row(XY, i) = row(X, i) Y", FA([X, Y, i], mrow(mmul(X, Y), i) == mmul(mrow(X, i), Y), patterns=[mrow(mmul(X, Y), i)])),
+        ("row-of-opposite: row(-X, i) = -row(X, i)", FA([X, i], mrow(mneg(X), i) == mneg(mrow(X, i)), patterns=[mrow(mneg(X), i)])),
+        ("row-of-sum: row(X+Y, i) = row(X, i) + row(Y, i)", FA([X, Y, i], mrow(madd(X, Y), i) == madd(mrow(X, i), mrow(Y, i)), patterns=[mrow(madd(X, Y), i)])),
+        ("product-with-opposite: X(-Y) = -(XY) = (-X)Y", FA([X, Y], z3.And(mmul(X, mneg(Y)) == mneg(mmul(X, Y)), mmul(mneg(X), Y) == mneg(mmul(X, Y))), patterns=[mmul(X, mneg(Y)), mmul(mneg(X), Y)])),
+        ("associativity: (XY)Z = X(YZ)", FA([X, Y, Z], mmul(mmul(X, Y), Z) == mmul(X, mmul(Y, Z)), patterns=[mmul(mmul(X, Y), Z), mmul(X, mmul(Y, Z))])),
+        ("transpose-of-product: (XY)^T = Y^T X^T", FA([X, Y], mtr(mmul(X, Y)) == mmul(mtr(Y), mtr(X)), patterns=[mtr(mmul(X, Y))])),
+        ("transpose-involution: (X^T)^T = X", FA([X], mtr(mtr(X)) == X, patterns=[mtr(mtr(X))])),
+        ("transpose-of-opposite: (-X)^T = -(X^T)", FA([X], mtr(mneg(X)) == mneg(mtr(X)), patterns=[mtr(mneg(X))])),
+        ("inverse-of-transpose: (X^T)^-1 = (X^-1)^T", FA([X], minv(mtr(X)) == mtr(minv(X)), patterns=[minv(mtr(X))])),
+        ("shape-of-set-col", FA([X, j, v], z3.And(nrows(set_col(X, j, v)) == nrows(X), ncols(set_col(X, j, v)) == ncols(X)), patterns=[set_col(X, j, v)])),
+        ("set-col: the written column is read back, the others are kept", FA([X, j, v, i], mcol(set_col(X, j, v), i) == z3.If(i == j, v, mcol(X, i)), patterns=[mcol(set_col(X, j, v), i)])),
+        ("shape-of-set-row", FA([X, j, v], z3.And(nrows(set_row(X, j, v)) == nrows(X), ncols(set_row(X, j, v)) == ncols(X)), patterns=[set_row(X, j, v)])),
+        ("set-row: the written row is read back, the others are kept", FA([X, j, v, i], mrow(set_row(X, j, v), i) == z3.If(i == j, v, mrow(X, i)), patterns=[mrow(set_row(X, j, v), i)])),
+        ("shape-of-product", FA([X, Y], z3.And(nrows(mmul(X, Y)) == nrows(X), ncols(mmul(X, Y)) == ncols(Y)), patterns=[mmul(X, Y)])),
+        ("shape-of-opposite", FA([X], z3.And(nrows(mneg(X)) == nrows(X), ncols(mneg(X)) == ncols(X)), patterns=[mneg(X)])),
+        ("shape-of-sum", FA([X, Y], z3.And(nrows(madd(X, Y)) == nrows(X), ncols(madd(X, Y)) == ncols(X)), patterns=[madd(X, Y)])),
+        ("shape-of-inverse", FA([X], z3.And(nrows(minv(X)) == ncols(X), ncols(minv(X)) == nrows(X)), patterns=[minv(X)])),
+        ("extensionality-by-columns: same shape and same columns => equal", FA([X, Y], z3.Implies(z3.And(ext_q(X, Y), nrows(X) == nrows(Y), ncols(X) == ncols(Y), X != Y), z3.And(
+            0 <= diff_col(X, Y), diff_col(X, Y) < ncols(X), mcol(X, diff_col(X, Y)) != mcol(Y, diff_col(X, Y)))), patterns=[ext_q(X, Y)])),
+        ("extensionality-by-rows: same shape and same rows => equal", FA([X, Y], z3.Implies(z3.And(ext_q(X, Y), nrows(X) == nrows(Y), ncols(X) == ncols(Y), X != Y), z3.And(
+            0 <= diff_row(X, Y), diff_row(X, Y) < nrows(X), mrow(X, diff_row(X, Y)) != mrow(Y, diff_row(X, Y)))), patterns=[ext_q(X, Y)])),
+        ("trigger-function (always true)", FA([X, Y], ext_q(X, Y), patterns=[ext_q(X, Y)])),
+    ]
+
+
+class RingObj(HeapObj):
+    """A mutable matrix of the abstract ring (a numpy array / scipy matrix whose entries are not modelled)."""
+
+    def __init__(self, term):
+        self.term = term
+
+    def clone(self):
+        c = RingObj(self.term)
+        c.origin, c.ty = self.origin, self.ty
+        return c
+
+
+class _TRing(T):
+    name = "Matrix"
+
+    def sort(self):
+        return MatrixS
+
+    def embed(self, st, v):
+        if isinstance(v, Ref) and isinstance(st.heap.get(v.id), RingObj):
+            return st.heap[v.id].term
+        if isinstance(v, SV) and v.ty == self:
+            return v.term
+        raise Unsupported(f"cannot embed {v!r} as an abstract matrix")
+
+    def project(self, st, term, origin=None):
+        o = RingObj(term)
+        o.origin, o.ty = origin, self
+        st.assume(z3.And(nrows(term) >= 0, ncols(term) >= 0))
+        return st.alloc(o)
+
+    def fresh(self, st, hint):
+        return self.project(st, st.fresh_const(hint, MatrixS))
+
+
+TRing = _TRing()
+LSF = TRec("LinearSolverLibraryFactory", {})  # the linear solver factory: only `execute` is used (assumed exact solver)
+
+
+def _ring(ex, v):
+    if isinstance(v, Ref):
+        o = ex.st.heap.get(v.id)
+        if isinstance(o, RingObj):
+            return o
+    return None
+
+
+def _rnew(ex, term):
+    return TRing.project(ex.st, term)
+
+
+def _is_full_slice(k):
+    return isinstance(k, tuple) and len(k) == 4 and k[0] == "slice" and k[1] is None and k[2] is None and k[3] is None
+
+
+class C07RingModels:
+    """Operations on abstract matrices (contracts with ``c07 = "ring"``): shapes are tracked, entries are not."""
+
+    def _on(self, ex):
+        return getattr(ex.contract, "c07", None) == "ring"
+
+    def call_builtin(self, ex, name, args, kwargs, lineno, node=None):
+        if not self._on(ex):
+            return NotImplemented
+        if name == "numpy.empty" and len(args) == 1 and isinstance(args[0], tuple) and len(args[0]) == 2 and all(ex.num(x) is not None for x in args[0]):
+            from .engine import PyRaise
+
+            r, c = ex.num(args[0][0])[0], ex.num(args[0][1])[0]
+            if not ex.st.decide(z3.And(r >= 0, c >= 0)):
+                raise PyRaise("ValueError", lineno)
+            m = ex.st.fresh_const("empty", MatrixS)
+            ex.st.assume(z3.And(nrows(m) == r, ncols(m) == c))
+            return _rnew(ex, m)
+        return NotImplemented
+
+    def construct(self, ex, cv, args, kwargs, lineno):
+        if self._on(ex) and cv.qualname.endswith("linear_problem.LinearProblem") and len(args) == 1 and _ring(ex, args[0]) is not None:
+            from .values import PyObj
+
+            return ex.st.alloc(PyObj(cv.qualname, {"lhs": args[0], "rhs": None, "solution": None}))
+        return NotImplemented
+
+    def getitem(self, ex, cont, key, lineno):
+        A = _ring(ex, cont)
+        if A is None:
+            return NotImplemented
+        from .engine import PyRaise
+
+        if isinstance(key, tuple) and len(key) == 2:
+            r, c = key
+            if _is_full_slice(r) and ex.num(c) is not None:
+                j = ex.num(c)[0]
+                if not ex.st.decide(z3.And(j >= -ncols(A.term), j < ncols(A.term))):
+                    raise PyRaise("IndexError", lineno)
+                return _rnew(ex, mcol(A.term, z3.If(j < 0, j + ncols(A.term), j) if not ex.st.decide(j >= 0) else j))
+            if _is_full_slice(c) and ex.num(r) is not None:
+                i = ex.num(r)[0]
+                if not ex.st.decide(z3.And(i >= -nrows(A.term), i < nrows(A.term))):
+                    raise PyRaise("IndexError", lineno)
+                return _rnew(ex, mrow(A.term, z3.If(i < 0, i + nrows(A.term), i) if not ex.st.decide(i >= 0) else i))
+        raise Unsupported(f"subscript {key!r} of an abstract matrix")
+
+    def setitem(self, ex, cont, key, v, lineno):
+        st = ex.st
+        if self._on(ex) and isinstance(cont, Ref) and isinstance(st.heap.get(cont.id), DictObj) and st.heap[cont.id].v.name == "Val" \
+                and isinstance(v, Ref) and getattr(st.heap.get(v.id), "is_empty_literal", False):
+            # settings["outer_v"] = []: an opaque option value
+            D = st.heap[cont.id]
+            D.set(st, D.k.embed(st, key), st.fresh_const("optval", D.v.sort()))
+            ex.writeback(D)
+            return True
+        A = _ring(ex, cont)
+        if A is None:
+            return NotImplemented
+        from .engine import PyRaise
+
+        V = _ring(ex, v)
+        if V is None or not (isinstance(key, tuple) and len(key) == 2):
+            raise Unsupported(f"store {key!r} into an abstract matrix")
+        r, c = key
+        ex.assumed.add("matrix ring model: shape (broadcast) errors of row / column assignments are not modelled; a solution vector is identified with the column / row it fills")
+        if _is_full_slice(r) and ex.num(c) is not None:
+            j = ex.num(c)[0]
+            if not st.decide(z3.And(j >= 0, j < ncols(A.term))):
+                if st.decide(j >= 0) or not st.decide(j >= -ncols(A.term)):
+                    raise PyRaise("IndexError", lineno)
+                raise Unsupported("negative column index")
+            A.term = set_col(A.term, j, V.term)
+        elif _is_full_slice(c) and ex.num(r) is not None:
+            i = ex.num(r)[0]
+            if not st.decide(z3.And(i >= 0, i < nrows(A.term))):
+                if st.decide(i >= 0) or not st.decide(i >= -nrows(A.term)):
+                    raise PyRaise("IndexError", lineno)
+                raise Unsupported("negative row index")
+            A.term = set_row(A.term, i, V.term)
+        else:
+            raise Unsupported(f"store {key!r} into an abstract matrix")
+        ex.writeback(A)
+        return True
+
+    def ref_attr(self, ex, obj, o, attr, lineno):
+        if isinstance(o, RingObj):
+            return self.value_attr(ex, obj, attr, lineno)
+        return NotImplemented
+
+    def value_attr(self, ex, obj, attr, lineno):
+        if isinstance(obj, SV) and obj.ty == LSF:
+            return BoundMethod(obj, None, f"lsf.{attr}")
+        A = _ring(ex, obj)
+        if A is None:
+            return NotImplemented
+        if attr == "shape":
+            return (SV(nrows(A.term), TInt), SV(ncols(A.term), TInt))
+        if attr == "T":
+            return _rnew(ex, mtr(A.term))
+        return BoundMethod(obj, None, f"ring.{attr}")
+
+    def call_method(self, ex, recv, name, args, kwargs, lineno):
+        if not isinstance(name, str):
+            return NotImplemented
+        st = ex.st
+        if name == "lsf.execute" and isinstance(recv, SV) and recv.ty == LSF:
+            from .values import PyObj
+
+            p = args[0]
+            P = st.heap[p.id] if isinstance(p, Ref) else None
+            if not isinstance(P, PyObj) or _ring(ex, P.fields.get("lhs")) is None or _ring(ex, P.fields.get("rhs")) is None:
+                raise Unsupported("linear solver call on something else than a LinearProblem with lhs and rhs")
+            ex.assumed.add("assumed linear-solver contract: LinearSolverLibraryFactory.execute(problem, ...) sets problem.solution to lhs^-1 rhs exactly "
+                           "(invertible lhs, exact solve, for every algorithm and option) and leaves lhs / rhs unchanged")
+            P.fields["solution"] = _rnew(ex, msolve(_ring(ex, P.fields["lhs"]).term, _ring(ex, P.fields["rhs"]).term))
+            return None
+        if not name.startswith("ring."):
+            return NotImplemented
+        A = _ring(ex, recv)
+        if A is None:
+            return NotImplemented
+        name = name[5:]
+        if name in ("toarray", "todense", "copy") and not args:
+            return _rnew(ex, A.term)  # same matrix in another storage format
+        if name == "dot" and len(args) == 1 and _ring(ex, args[0]) is not None:
+            return _rnew(ex, mmul(A.term, _ring(ex, args[0]).term))
+        raise Unsupported(f"abstract matrix method {name}")
+
+    def havoc_obj(self, ex, ref, o, hint):
+        if not isinstance(o, RingObj):
+            return NotImplemented
+        o.term = ex.st.fresh_const(hint, MatrixS)
+        ex.st.assume(z3.And(nrows(o.term) >= 0, ncols(o.term) >= 0))
+        ex.writeback(o)
+        return True
+
+    def unary(self, ex, op, v, lineno):
+        A = _ring(ex, v)
+        if A is None:
+            return NotImplemented
+        if op == "neg":
+            return _rnew(ex, mneg(A.term))
+        raise Unsupported(f"unary {op} on an abstract matrix")
+
+    def binop(self, ex, op, a, b, lineno, inplace=False):
+        A, B = _ring(ex, a), _ring(ex, b)
+        if A is None or B is None:
+            return NotImplemented
+        if op == "Add":
+            return _rnew(ex, madd(A.term, B.term))
+        if op == "Sub":
+            return _rnew(ex, madd(A.term, mneg(B.term)))
+        if op == "MatMult":
+            return _rnew(ex, mmul(A.term, B.term))
+        raise Unsupported(f"operator {op} on abstract matrices")
